@@ -1407,7 +1407,14 @@ func (cs *ConsensusState) addProposalBlockPart(height int64, part *types.Part, v
 		// Added and completed!
 		var n int
 		var err error
-		cs.ProposalBlock = wire.ReadBinary(&types.Block{}, cs.ProposalBlockParts.GetReader(), types.MaxBlockSize, &n, &err).(*types.Block)
+		block := wire.ReadBinary(&types.Block{}, cs.ProposalBlockParts.GetReader(), types.MaxBlockSize, &n, &err).(*types.Block)
+		if err != nil {
+			return true, err
+		}
+		if block == nil || block.Header == nil || block.Data == nil || block.LastCommit == nil {
+			return true, errors.New("proposal block is missing its header, data or last commit")
+		}
+		cs.ProposalBlock = block
 		// NOTE: it's possible to receive complete proposal blocks for future rounds without having the proposal
 		//log.Debug("Received complete proposal block", zap.Int64("height", cs.ProposalBlock.Height), zap.String("hash", gcmn.Fmt("%X", cs.ProposalBlock.Hash())))
 		if cs.Step == RoundStepPropose && cs.isProposalComplete() {
